@@ -9,6 +9,10 @@ mod c08;
 mod c09;
 mod c13;
 mod c15;
+mod c16;
+mod airmon;
+mod c03;
+mod c04;
 mod c05;
 mod c06;
 mod c07;
@@ -68,6 +72,19 @@ fn main() {
         std::process::exit(2);
     }
     match args[1].as_str() {
+        "run" => {
+            // mvh run <file.masm> <stack csv | -> [adv csv]   (probe: prints the implementation's answer)
+            let src = fs::read_to_string(&args[2]).expect("source file");
+            let st: Vec<u64> = if args[3] == "-" { vec![] } else { args[3].split(',').map(|x| x.parse().unwrap()).collect() };
+            let adv: Vec<u64> = if args.len() > 4 { args[4].split(',').map(|x| x.parse().unwrap()).collect() } else { vec![] };
+            match execgen::assemble(None, &src, false) {
+                Err(e) => println!("assembly error: {}", e),
+                Ok(p) => {
+                    let r = util::run_impl(&p, &st, execgen::host_with_advice(&adv), util::Lies::default(), None, "sys,mem");
+                    println!("{}", r.answer);
+                }
+            }
+        }
         "export" => {
             export::export_all(&args[2]);
         }
@@ -82,6 +99,9 @@ fn main() {
                 "C09" => c09::generate(&mut em, seed, thorough),
                 "C13" => c13::generate(&mut em, seed, thorough),
                 "C15" => c15::generate(&mut em, seed, thorough),
+                "C16" => c16::generate(&mut em, seed, thorough),
+                "C03" => c03::generate(&mut em, seed, thorough),
+                "C04" => c04::generate(&mut em, seed, thorough),
                 "C05" => c05::generate(&mut em, seed, thorough),
                 "C06" => c06::generate(&mut em, seed, thorough),
                 "C07" => c07::generate(&mut em, seed, thorough),
